@@ -85,7 +85,7 @@ def observe (c : Cfg) (status : String) (old : St) (σ : St) : String := Id.run 
 def showStatus : Status → String
   | .ok => "ok" | .present => "present" | .invalid => "invalid" | .errVerify => "err:verify"
   | .errPayloadHash => "err:payloadhash" | .errRoot => "err:root" | .errCommit => "err:commit"
-  | .errNotFound => "err:notfound" | .skipped => "ok"
+  | .errNotFound => "err:notfound" | .skipped => "ok" | .errShelf => "err:shelf"
 
 /-- did the op end with the node stopping inside a receiver? (newest new ledger entry is a `crash` call) -/
 def stoppedIn (old σ : St) : Bool :=
@@ -146,7 +146,8 @@ def step (d : DSt) (j : Json) : DSt × List String :=
       match op with
       | "add" =>
         let a : AddArgs := { ref := jNat j "ref", withPayload := jBool j "payload", reject := jBool j "reject",
-                             mismatch := jBool j "mismatch", commitFail := jBool j "commitFail" }
+                             mismatch := jBool j "mismatch", commitFail := jBool j "commitFail",
+                             failShelf := if jHas j "failShelf" then some (jNat j "failShelf") else none }
         let (σ1, st) := addTx c old a
         if st != .ok then fin σ1 (showStatus st)
         else if jBool j "drop" then fin (crashSt σ1) "stop"
@@ -154,9 +155,12 @@ def step (d : DSt) (j : Json) : DSt × List String :=
       | "wp" =>
         let ref := jNat j "ref"
         let (σ1, st) := writePayload c old ref (jBool j "commitFail")
+        let shelfHit := jHas j "failShelf" && shelfFaultHits c (some (jNat j "failShelf")) ref .payload
         match st with
         | .ok =>
-          if jBool j "drop" then fin (crashSt σ1) "stop"
+          -- a storage fault on one subscriber's shelf: saveEvent returns the error, the write transaction is rolled back
+          if shelfHit then fin old "err:shelf"
+          else if jBool j "drop" then fin (crashSt σ1) "stop"
           else
             let σ2 := afterAll c σ1 (ordersOf j) 1
             if stoppedIn old σ2 then fin σ2 "stop"
